@@ -5,8 +5,10 @@
                                MAnyFn, MFunc, MRoot, MAttr, MAny, MAnyWP (shares MAny's case), MImm
      imm_excluded              step_ok (child): negb is_attr && negb is_root
      any_document_excluded_for body MAny tests negb is_root, body MAnyWP does not
-     root_walk_up_after        body MRoot: root_retry when the next step is MAny | MAnyWP (re-test on the
-                               top-level ancestor: GenPat.root_retests_previous_step)
+     left_check_skipped_after  any_like: compile's left_check is None after MAny | MAnyWP | MAnyFn, else the
+                               closure re-entering step_pattern on the steps to the left
+                               (GenPat.any_checks_left, stop_ends_pattern); body MRoot accepts the root only
+                               (GenPat.root_is_exact)
      name_test_attribute_axes  one attr_test for the matcher and for the re-run
      step_ops / head_ops       compile_steps / compile *)
 From Coq Require Import List String.
@@ -19,7 +21,8 @@ Definition modelled_cases : list string :=
 Definition imm_excluded : list string := ["ATTRIBUTE_NODE"; "DOCUMENT_NODE"].
 Definition any_shared : list string := ["eMATCH_ANY_ANCESTOR"; "eMATCH_ANY_ANCESTOR_WITH_PREDICATE"].
 Definition any_document_excluded : list string := ["eMATCH_ANY_ANCESTOR"].
-Definition root_walk_up : list string := ["eMATCH_ANY_ANCESTOR"; "eMATCH_ANY_ANCESTOR_WITH_PREDICATE"].
+Definition left_any_like : list string :=
+  ["eMATCH_ANY_ANCESTOR"; "eMATCH_ANY_ANCESTOR_WITH_FUNCTION_CALL"; "eMATCH_ANY_ANCESTOR_WITH_PREDICATE"].
 Definition attribute_axes : list string := ["eFROM_ATTRIBUTES"; "eMATCH_ATTRIBUTE"].
 Definition compiled_step_ops : list string := ["eMATCH_ATTRIBUTE"; "eMATCH_IMMEDIATE_ANCESTOR"].
 Definition compiled_head_ops : list string :=
